@@ -16,6 +16,11 @@ static void c12_atof_check(size_t n, uchar *content, uchar want_end, size_t k)
     __CPROVER_assume(n >= 1 && n <= VC_MAXOBJ && n <= C12_MAXTEXTOBJ);
     uchar *t = NEW_OBJ(n);
     FILL(t, n, content);
+#if VC_FALLBACK
+    /* ghost-free bounded fallback (units/README.md): the reference machine, which otherwise supplies the assumption that the
+     * text object extends as far as the grammar has to look, may not be stepped: the text is a NUL-terminated string instead */
+    __CPROVER_assume(t[n - 1] == 0);
+#endif
     uchar at_k = k < n ? t[k] : 0;
     char sentinel;
     char *end = &sentinel;
@@ -26,18 +31,23 @@ static void c12_atof_check(size_t n, uchar *content, uchar want_end, size_t k)
 
     ATOF_T r = ATOF_CALL((const char *)t, want_end ? &end : (char **)0);
 
+#if !VC_FALLBACK      /* clauses stated over the reference machine (ghost state) */
     int literal = (g_nd + g_nf) != 0;
     __CPROVER_assert(g_end <= g_i && g_i < g_n, "reference machine stayed inside the text");
     if (want_end)
         __CPROVER_assert(end == (char *)t + g_end,
                          "*endptr = end of the literal (longest prefix of the grammar), nptr when there is no literal");
-    else
-        __CPROVER_assert(end == &sentinel, "endptr == NULL: nothing stored");
-    __CPROVER_assert(!isnan(r), "the result is a number");
     if (literal)
         __CPROVER_assert((signbit(r) != 0) == (g_neg != 0), "sign of the result == sign of the literal");
     else
         __CPROVER_assert(r == 0, "no literal: zero is returned (ISO 7.22.1.3p7)");
+#else
+    if (want_end)
+        __CPROVER_assert(end >= (char *)t && end < (char *)t + n, "*endptr points into the text");
+#endif
+    if (!want_end)
+        __CPROVER_assert(end == &sentinel, "endptr == NULL: nothing stored");
+    __CPROVER_assert(!isnan(r), "the result is a number");
     __CPROVER_assert(!(k < n) || t[k] == at_k, "the text is not modified");
     CANARY("atof harness end reachable");
 }
